@@ -395,6 +395,7 @@ class CheckContext:
             "explanation": self.explanation,
             "exhaustive": False,
             "notes": self.notes,
+            "engine_crosscheck": getattr(self, "crosschecks", []),     # symbolic executor on concrete arguments vs CPython, per function (calls / agree / skipped)
         }
         if self.bounded:
             cov["evaluations"] = max(1, ev_b)
